@@ -1,5 +1,5 @@
 //@PROBE file=src/utils/nms.rs test=verif_probe_nms_c14 clauses=nms
-//@BOUND lists of 0..=4 boxes exhaustively over a 12-box alphabet (clustered, nested, duplicated, rotated, two invalid) and 1500 pseudo-random lists of 5..=14 boxes; with/without scores (scores from a 5-value grid, ties included); nms thresholds {0.1, 0.3, 0.5, 0.8}; score thresholds {None, below, inside, above the score range}
+//@BOUND lists of 0..=4 boxes exhaustively over a 12-box alphabet (clustered, nested, duplicated, rotated - three of them handed over after gen_vertices() and a later edit of their public fields -, two invalid) and 1500 pseudo-random lists of 5..=14 boxes; with/without scores (scores from a 5-value grid, ties included); nms thresholds {0.1, 0.3, 0.5, 0.8}; score thresholds {None, below, inside, above the score range}
 #[cfg(test)]
 mod verif_probe_nms_c14 {
     // Bounded stand-in for the contract of nms() (for-loops with `continue`, enumerate() and HashSet are outside
@@ -24,12 +24,25 @@ mod verif_probe_nms_c14 {
         ]
     }
 
+    /// boxes 6, 7 and 9 are handed to nms() after gen_vertices() was called on them with ANOTHER geometry and their
+    /// public fields were then edited to the geometry listed in alphabet(): nms must judge them by their current fields
+    fn given(al: &[Universal2DBox]) -> Vec<Universal2DBox> {
+        al.iter().enumerate().map(|(i, b)| {
+            if i == 6 || i == 7 || i == 9 {
+                let mut g = Universal2DBox::new(b.xc + 40.0, b.yc - 25.0, Some(b.angle.unwrap() + 1.1), b.aspect * 2.0, b.height * 0.5);
+                g.gen_vertices();
+                g.xc = b.xc; g.yc = b.yc; g.aspect = b.aspect; g.height = b.height; g.rotate_mut(b.angle.unwrap());
+                g
+            } else { b.clone() }
+        }).collect()
+    }
+
     fn cov(h: &Universal2DBox, k: &Universal2DBox) -> f32 {
         Universal2DBox::intersection(h, k) as f32 / k.area()
     }
 
     /// evaluates the contract of nms() on one input; returns the violated clause
-    fn contract(dets: &[(Universal2DBox, Option<f32>)], thr: f32, sthr: Option<f32>) -> Result<usize, String> {
+    fn contract(dets: &[(Universal2DBox, Option<f32>)], geo: &[Universal2DBox], thr: f32, sthr: Option<f32>) -> Result<usize, String> {
         let out = nms(dets, thr, sthr);
         let idx_of = |b: &Universal2DBox| -> Option<usize> { dets.iter().position(|(d, _)| std::ptr::eq(d, b)) };
         let rank = |i: usize| -> f32 { dets[i].1.unwrap_or(dets[i].0.height) };
@@ -56,17 +69,17 @@ mod verif_probe_nms_c14 {
         }
         for (pos, &k) in kept.iter().enumerate() {
             for &h in &kept[..pos] {
-                let c = cov(&dets[h].0, &dets[k].0);
+                let c = cov(&geo[h], &geo[k]);
                 if c > thr { return Err(format!("nms.kept_not_covered_by_higher_kept: kept #{} is covered {} > {} by kept higher-ranked #{}", k, c, thr, h)); }
             }
         }
         for &d in &passing {
             if kept.contains(&d) { continue; }
-            let ok = kept.iter().any(|&k| rank(k) >= rank(d) && cov(&dets[k].0, &dets[d].0) > thr);
+            let ok = kept.iter().any(|&k| rank(k) >= rank(d) && cov(&geo[k], &geo[d]) > thr);
             if !ok { return Err(format!("nms.dropped_is_covered_by_kept_higher: #{} was dropped but no kept box of at least its rank covers more than {} of it", d, thr)); }
         }
         // idempotence: applying nms to its own output (same scores) changes nothing
-        let again_in: Vec<(Universal2DBox, Option<f32>)> = kept.iter().map(|&i| (dets[i].0.clone(), dets[i].1)).collect();
+        let again_in: Vec<(Universal2DBox, Option<f32>)> = kept.iter().map(|&i| (geo[i].clone(), dets[i].1)).collect();
         let again = nms(&again_in, thr, sthr);
         let again_idx: Vec<usize> = again.iter().map(|b| again_in.iter().position(|(d, _)| std::ptr::eq(d, *b)).unwrap()).collect();
         if again_idx.len() != kept.len() { return Err(format!("nms.idempotent: second application keeps {} of {} boxes", again_idx.len(), kept.len())); }
@@ -79,6 +92,7 @@ mod verif_probe_nms_c14 {
     #[test]
     fn verif_probe_nms_c14() {
         let al = alphabet();
+        let gv = given(&al);
         let scores: [f32; 5] = [0.2, 0.5, 0.5, 0.7, 0.9];
         let mut failures: Vec<String> = vec![];
         let mut cases = 0u64;
@@ -86,12 +100,13 @@ mod verif_probe_nms_c14 {
         let sthrs: [Option<f32>; 4] = [None, Some(0.1), Some(0.5), Some(0.95)];
         let mut run = |sel: &[usize], scored: bool, salt: usize, failures: &mut Vec<String>| {
             let dets: Vec<(Universal2DBox, Option<f32>)> = sel.iter().enumerate()
-                .map(|(p, &a)| (al[a].clone(), if scored { Some(scores[(a + p * 3 + salt) % 5]) } else { None })).collect();
+                .map(|(p, &a)| (gv[a].clone(), if scored { Some(scores[(a + p * 3 + salt) % 5]) } else { None })).collect();
+            let geo: Vec<Universal2DBox> = sel.iter().map(|&a| al[a].clone()).collect();
             for thr in [0.1f32, 0.3, 0.5, 0.8] {
                 for st in sthrs.iter() {
                     if !scored && st.is_some() && *st != Some(0.5) { continue; }
                     cases += 1;
-                    match contract(&dets, thr, *st) {
+                    match contract(&dets, &geo, thr, *st) {
                         Ok(k) => { if k > 0 && k < sel.len() { nontrivial += 1; } }
                         Err(e) => if failures.len() < 40 {
                             failures.push(format!("PROBE input: nms boxes(alphabet index)={:?} scores={:?} nms_threshold={} score_threshold={:?}: {}",
